@@ -87,6 +87,11 @@ func ruleLoopCensus(c *Ctx) {
 					return true
 				}
 				ok, why := loopMakesProgress(c.P, info, s)
+				if !ok {
+					if ok2, why2 := ssaLoopProgress(c.P.ssaOf(fd), s); ok2 {
+						ok, why = true, why2
+					}
+				}
 				if ok {
 					c.ok("LOOP-CENSUS", fname, desc, s.Pos(), why)
 				} else {
@@ -114,6 +119,13 @@ func condVars(p *Prog, info *types.Info, e ast.Expr) map[string]bool {
 			if o, ok := info.Uses[v].(*types.Var); ok && !o.IsField() {
 				out[v.Name] = true
 			}
+		case *ast.SelectorExpr:
+			// a field of a local / receiver: `b.i < len(b.s)`
+			if id, ok := ast.Unparen(v.X).(*ast.Ident); ok {
+				if o, ok := info.Uses[id].(*types.Var); ok && !o.IsField() {
+					out[id.Name+"."+v.Sel.Name] = true
+				}
+			}
 		case *ast.CallExpr:
 			// len(x): x
 		}
@@ -130,10 +142,20 @@ func assignedVars(p *Prog, st ast.Stmt) map[string]bool {
 			if id, ok := ast.Unparen(l).(*ast.Ident); ok {
 				out[id.Name] = true
 			}
+			if se, ok := ast.Unparen(l).(*ast.SelectorExpr); ok {
+				if id, ok := ast.Unparen(se.X).(*ast.Ident); ok {
+					out[id.Name+"."+se.Sel.Name] = true
+				}
+			}
 		}
 	case *ast.IncDecStmt:
 		if id, ok := ast.Unparen(s.X).(*ast.Ident); ok {
 			out[id.Name] = true
+		}
+		if se, ok := ast.Unparen(s.X).(*ast.SelectorExpr); ok {
+			if id, ok := ast.Unparen(se.X).(*ast.Ident); ok {
+				out[id.Name+"."+se.Sel.Name] = true
+			}
 		}
 	}
 	return out
@@ -870,4 +892,188 @@ func nilGuardedByCallers(c *Ctx, f *ssa.Function, src *ssa.FieldAddr, depth int)
 		}
 	}
 	return true
+}
+
+// ssaLoopProgress: a termination argument for loops the syntactic rule does not cover (`for { ... }` with exits
+// in the body): some loop-carried value makes strict progress on every way back to the loop head -
+//   - an offset that grows by at least one (`start += nl + 1` after `nl < 0` left the loop) and is used as a bound
+//     or index into a string/slice in the loop (so it cannot exceed its length),
+//   - a string/slice that gets strictly shorter (`rest` of strings.Cut when the separator was found, `s[k:]`),
+//   - a value obtained from the previous one by a map lookup / type assertion (descent into a finite value).
+func ssaLoopProgress(f *ssa.Function, s *ast.ForStmt) (bool, string) {
+	if f == nil {
+		return false, ""
+	}
+	// the loop's blocks: those holding an instruction written inside the statement, in a cycle
+	inLoop := map[*ssa.BasicBlock]bool{}
+	for _, fn := range append([]*ssa.Function{f}, f.AnonFuncs...) {
+		for _, b := range fn.Blocks {
+			if !inCycle(b) {
+				continue
+			}
+			for _, ins := range b.Instrs {
+				if p := ins.Pos(); p.IsValid() && p >= s.Pos() && p <= s.End() {
+					inLoop[b] = true
+					break
+				}
+			}
+		}
+	}
+	var header *ssa.BasicBlock
+	for b := range inLoop {
+		for _, p := range b.Preds {
+			if !inLoop[p] && !reachesBlock(b, p) {
+				if header == nil || b.Index < header.Index {
+					header = b
+				}
+			}
+		}
+	}
+	if header == nil {
+		return false, ""
+	}
+	// the whole cycle through the header (blocks without a source position included)
+	for _, b := range header.Parent().Blocks {
+		if b != header && reachesBlock(header, b) && reachesBlock(b, header) {
+			inLoop[b] = true
+		}
+	}
+	nonNeg := func(v ssa.Value, at *ssa.BasicBlock) bool {
+		if k, ok := v.(*ssa.Const); ok && k.Value != nil {
+			return k.Int64() >= 0
+		}
+		if call, ok := v.(*ssa.Call); ok {
+			if bi, ok := call.Call.Value.(*ssa.Builtin); ok && (bi.Name() == "len" || bi.Name() == "cap") {
+				return true
+			}
+		}
+		for _, cc := range controlCondsPol(at) {
+			bo, ok := cc.Cond.(*ssa.BinOp)
+			if !ok || bo.X != v {
+				continue
+			}
+			k, ok := bo.Y.(*ssa.Const)
+			if !ok || k.Value == nil {
+				continue
+			}
+			switch {
+			case bo.Op == token.LSS && !cc.Taken && k.Int64() >= 0, // !(v < 0)
+				bo.Op == token.GEQ && cc.Taken && k.Int64() >= 0,
+				bo.Op == token.GTR && cc.Taken && k.Int64() >= -1:
+				return true
+			}
+		}
+		return false
+	}
+	usedAsBound := func(p ssa.Value) bool {
+		for b := range inLoop {
+			for _, ins := range b.Instrs {
+				switch x := ins.(type) {
+				case *ssa.Slice:
+					if x.Low == p || x.High == p {
+						return true
+					}
+				case *ssa.Index:
+					if x.Index == p {
+						return true
+					}
+				case *ssa.IndexAddr:
+					if x.Index == p {
+						return true
+					}
+				}
+			}
+		}
+		return false
+	}
+	var progresses func(v ssa.Value, phi *ssa.Phi, from *ssa.BasicBlock, depth int) bool
+	progresses = func(v ssa.Value, phi *ssa.Phi, from *ssa.BasicBlock, depth int) bool {
+		if depth > 4 {
+			return false
+		}
+		switch x := v.(type) {
+		case *ssa.BinOp:
+			if x.Op == token.ADD && isIntType(x.Type()) {
+				// phi + e with e >= 1
+				base, e := x.X, x.Y
+				if base != ssa.Value(phi) {
+					base, e = x.Y, x.X
+				}
+				if base != ssa.Value(phi) {
+					return false
+				}
+				if k, ok := e.(*ssa.Const); ok && k.Value != nil && k.Int64() >= 1 {
+					return usedAsBound(phi)
+				}
+				if eb, ok := e.(*ssa.BinOp); ok && eb.Op == token.ADD {
+					if k, ok := eb.Y.(*ssa.Const); ok && k.Value != nil && k.Int64() >= 1 && nonNeg(eb.X, from) {
+						return usedAsBound(phi)
+					}
+				}
+			}
+		case *ssa.Extract:
+			// the rest of a cut / split: strictly shorter when the separator was found; the loop is left otherwise
+			if call, ok := x.Tuple.(*ssa.Call); ok {
+				if cal := call.Call.StaticCallee(); cal != nil {
+					switch cal.String() {
+					case "strings.Cut", "bytes.Cut", "strings.CutPrefix", "strings.CutSuffix":
+						for _, a := range call.Call.Args {
+							if a == ssa.Value(phi) {
+								return true
+							}
+						}
+					}
+				}
+				return false
+			}
+			// `v, ok := x.(T)` / `v, ok := m[k]` on the previous value: descent into a finite value
+			switch t := x.Tuple.(type) {
+			case *ssa.TypeAssert:
+				return t.X == ssa.Value(phi) || backSlice(t.X)[phi]
+			case *ssa.Lookup:
+				return backSlice(t.X)[phi]
+			}
+		case *ssa.Slice:
+			if x.X == ssa.Value(phi) && x.Low != nil {
+				if k, ok := x.Low.(*ssa.Const); ok && k.Value != nil && k.Int64() >= 1 {
+					return true
+				}
+			}
+		case *ssa.Lookup:
+			return backSlice(x.X)[phi]
+		case *ssa.TypeAssert:
+			return backSlice(x.X)[phi]
+		case *ssa.Phi:
+			if x == phi {
+				return false
+			}
+			for _, e := range x.Edges {
+				if !progresses(e, phi, from, depth+1) {
+					return false
+				}
+			}
+			return true
+		}
+		return false
+	}
+	for _, ins := range header.Instrs {
+		phi, ok := ins.(*ssa.Phi)
+		if !ok {
+			break
+		}
+		all, n := true, 0
+		for i, pred := range header.Preds {
+			if !inLoop[pred] {
+				continue
+			}
+			n++
+			if i >= len(phi.Edges) || !progresses(phi.Edges[i], phi, pred, 0) {
+				all = false
+			}
+		}
+		if all && n > 0 {
+			return true, "the loop-carried value " + phi.Comment + " makes strict progress on every way back to the loop head (offset grows and bounds a slice, a string gets shorter, or a finite value is descended into)"
+		}
+	}
+	return false, ""
 }
